@@ -143,4 +143,8 @@ def sort_by_order(
     for value in sorted(groups):
         for elt in groups[value]:
             add_to_result(elt)
+    if len(result) != len(elts):
+        # elements ordered after/before each other are never reached
+        missing = sorted(set(map(name, elts)) - set(map(name, result)))
+        raise ValueError(f"Cyclic ordering of {missing} in {cls}")
     return result
